@@ -128,3 +128,54 @@ def run(run, P):
                               'sessions are cleared down while their handshake is in progress' % short(c)[:90])
     run.stats['expiry_conditions'] = n
     run.require_count(judged >= (2 if run.cfg == 'base' else 0) or run.fixture_mode, 'R-SESS-EVT (expiry orientation): fewer than 2 expiry tests with a removing arm found')
+
+
+def run_free_candidates(run, P):
+    """R-SESS-EVT (only unreferenced sessions are candidates for removal): a local that a function later hands to coap_session_free() (the
+    "oldest idle" candidates of the scan in coap_endpoint_get_session()) is assigned from a session S only on paths that know `S->ref == 0`.
+    A weaker idle test (`ref == 0 || delayqueue == NULL`) makes a session that an observation or a queued message still refers to the
+    candidate: SERVER_SESSION_DEL is raised for a live session, and the limit on idle sessions is applied to busy ones."""
+    from core.psts import Env, solve
+    run.rule(RULE)
+    n = 0
+    for f in sorted(P.lib_funcs(), key=lambda f: f['name']):
+        dvars = set()
+        for b, ev in P.events(f):
+            for t in walk(ev['e']):
+                if isinstance(t, dict) and t.get('k') == 'call' and t.get('fn') == FREE and t.get('a') and ap(t['a'][0]):
+                    dvars.add(ap(t['a'][0]))
+        sites = []
+        for b, ev in P.events(f):
+            t = ev['e']
+            if t.get('k') == 'asg' and t.get('op') == '=' and ev.get('top') and ap(t['l']) in dvars:
+                r = strip(t['r'])
+                # the advance of an iteration macro (`s = rtmp` out of SESSIONS_ITER_SAFE) selects nothing
+                if isinstance(r, dict) and r.get('k') == 'var' and ap(r) not in dvars and r.get('prec') == 'coap_session_t' and 'pi' not in r \
+                        and not any('ITER' in m for m in (ev.get('mac') or ())):
+                    sites.append(ev)
+        if not sites:
+            continue
+        name = f['name']
+        rep = set()
+
+        def on_event(ev, env, ctx):
+            for s_ in sites:
+                if ev is s_:
+                    src = ap(ev['e']['r'])
+                    lo, hi, ex = env.intf(src + '->ref')
+                    ok = lo == 0 and hi == 0
+                    run.oblige(RULE, ok, '%s:candidate-unreferenced' % name)
+                    if not ok and ev['loc'] not in rep:
+                        rep.add(ev['loc'])
+                        run.violation(RULE, name, ev['loc'], 'removal-candidate-may-be-referenced',
+                                      '%s becomes a candidate for coap_session_free() on a path that does not know its reference count 0: a session an observation, an async '
+                                      'entry or a queued message still refers to is reported deleted (and the idle limit is applied to busy sessions)' % short(ev['e']['r']), ctx.path())
+            return None
+        for ev in sites:
+            n += 1
+            run.instance(RULE, '%s: %s' % (name, short(ev['e'])))
+        srcs = set(ap(ev['e']['r']) + '->ref' for ev in sites)
+        from core.psts import relevance
+        keys, R = relevance(f, lambda ev: any(ev is s_ for s_ in sites), srcs)
+        solve(f, Env(), on_event, None, keys, set(R) | srcs, key_fn=lambda e: tuple(sorted((k, e.intf(k)[:2]) for k in srcs)), max_envs=512)
+    run.require_count(n >= (2 if run.cfg == 'base' else 0) or run.fixture_mode, 'R-SESS-EVT (free candidates): fewer than 2 removal candidates found')
